@@ -91,9 +91,13 @@ CONFIG = {
         "assumptions": ["ARPACK and LAPACK results are compared numerically, nothing about them is proved"],
     },
     "C15": {
-        "level": "exploration", "proof": False, "rtc": True,
-        "explanation": "Bounded run-time contract on the real rotation-cell volumes against a seeded Monte-Carlo nearest-rotation count: "
-                       "cube4D and randomQ, N 1..40 (quick) / 1..80 (thorough); exact equal-share clause for N < 4.",
+        "level": "other", "proof": True, "rtc": True,
+        "explanation": "Proved: the N < 4 clause (MikroVoronoi.get_voronoi_volumes returns N equal shares pi^2/N resp. 4 pi/N, for all N >= 1, "
+                       "on an object built by the real constructor). Bounded (the actual claim for N >= 4, a tolerance band on a numerical "
+                       "approximation): real rotation-cell volumes against a seeded Monte-Carlo nearest-rotation count, cube4D and "
+                       "randomQ, N 1..40 (quick) / 1..80 (thorough): positive, first N of the 2N double-cover values, sum within 12%, each "
+                       "within 30%.",
+        "trusted_base": [NUMPY],
         "assumptions": ["the Monte-Carlo estimate (4e5 / 2e6 samples) has a statistical error far below the 30% band; cells within 3 sigma of "
                         "the band edge are listed as uncertain, not failed"],
     },
@@ -130,11 +134,13 @@ CONFIG["C02"] = {
     "assumptions": ["the position-grid and rotation-grid matrices themselves are the subject of C03-C06"],
 }
 CONFIG["C05"] = {
-    "level": "exploration", "proof": False, "rtc": True,
-    "explanation": "Bounded run-time contract: real PositionGrid (spherical shells) compared entrywise with the closed formulas of the "
-                   "statement (volumes, adjacency, borders, distances, sums) built from the direction grid's areas/arcs/angles and the "
-                   "parsed radii, over three algorithms, N 4..42 (quick) / 4..162 (thorough) and six radial text forms.",
-    "assumptions": ["direction-grid areas, arcs and angles are the subject of C03"],
+    "level": "other", "proof": True, "rtc": True,
+    "explanation": "Proved (symbolic n_o, T >= 1): PositionGrid.get_all_position_volumes = area_o (R_k^3 - R_{k-1}^3)/3 in position order, "
+                   "with the shell boundaries of contract C16 (midpoints, half last increment, single radius doubled) and the "
+                   "combination helper of contract C09; telescoping step lemma. Bounded: adjacency, borders, distances and all sums "
+                   "entrywise on real grids (three algorithms, N 4..42 quick / 4..162 thorough, six radial text forms).",
+    "trusted_base": [NUMPY, "ASSUMED callee contract (C03 post): direction-grid areas are positive"],
+    "assumptions": ["_get_N_N_position_array (diags/bmat/per-shell scaling) is checked bounded only", "sum linearity over cells is not proved"],
 }
 CONFIG["C12"] = {
     "level": "other", "proof": True, "rtc": True,
@@ -179,10 +185,16 @@ CONFIG["C17"] = {
     "assumptions": ["names carrying a dimension tag are left unspecified by the statement"],
 }
 CONFIG["C19"] = {
-    "level": "exploration", "proof": False, "rtc": True,
-    "explanation": "Bounded run-time contract, exhaustive over the box (n_b, n_o) in {1..5}^2, n_t in {1,2,3}(,4), both modes, five getters "
-                   "on the real code: correct shape, ValueError, or (Cartesian, n_o < 3) the geometry library's error.",
-    "assumptions": [],
+    "level": "other", "proof": True, "rtc": True,
+    "explanation": "Proved (symbolic N >= 1, both dimensions): typestate of SphereGridNDim.gen_grid (RotobjVoronoi / HalfRotobjVoronoi for "
+                   "N >= 4, MikroVoronoi below, with the grid's size), and every getter FullGrid asks of a tiny grid's MikroVoronoi "
+                   "(_calculate_N_N_array, adjacency, distances, borders, volumes) executed on an object built by the real "
+                   "constructor: no AttributeError/IndexError, N x N all-neighbours matrices, length-N equal-share volumes. "
+                   "Bounded, exhaustive over the box (n_b, n_o) in {1..5}^2, n_t in {1,2,3}(,4), both modes, five getters: correct "
+                   "shape, ValueError, or (Cartesian, n_o < 3) the geometry library's error.",
+    "trusted_base": [NUMPY, SCIPY_SPARSE, "ASSUMED callee contracts: RotobjVoronoi/HalfRotobjVoronoi constructors (Qhull) succeed on >= 4 "
+                     "distinct points; upper indices of a rotation grid are 0..N-1 (C07)"],
+    "assumptions": ["FullGrid._get_N_N / PositionGrid._get_N_N_position_array for symbolic sizes are checked bounded only"],
 }
 
 CONFIG["C07"] = {
